@@ -16,8 +16,9 @@ def _num(o, strict):
             return ('bool', o)
         if isinstance(o, int):
             return ('int', o)
-        # -0.0 and 0.0 are the same datum for every format graphtage reads
-        return ('float', o + 0.0 if o != 0 else 0.0)
+        return ('float', repr(o))
+    if isinstance(o, bool):
+        return ('bool', o)          # a boolean is not a number (LeafNode equality agrees since the F10 fix)
     if isinstance(o, float) and math.isinf(o):
         return ('num', repr(o))
     if o == int(o):
